@@ -11,7 +11,8 @@ import (
 
 // AC3SampleRates - Sample rates as defined in  ETSI TS 102 366 V1.4.1 (2017) section 4.4.1.3
 // Signaled in fscod - Sample rate code - 2 bits
-var AC3SampleRates = []int{48000, 44100, 32000}
+// The value 3 is reserved and has no sample rate.
+var AC3SampleRates = []int{48000, 44100, 32000, 0}
 
 // AX3acmodChanneTable - channel configurations from ETSI TS 102 366 V1.4.1 (2017) section 4.4.2.3A
 // Signaled in acmod - audio coding mode - 3 bits
@@ -47,6 +48,19 @@ var AC3BitrateCodesKbps = []uint16{
 	512,
 	576,
 	640,
+	0, // reserved
+	0, // reserved
+	0, // reserved
+	0, // reserved
+	0, // reserved
+	0, // reserved
+	0, // reserved
+	0, // reserved
+	0, // reserved
+	0, // reserved
+	0, // reserved
+	0, // reserved
+	0, // reserved
 }
 
 // Dac3Box - AC3SpecificBox from ETSI TS 102 366 V1.4.1 F.4 (2017)
